@@ -285,6 +285,15 @@ func (c *Ctx) c16B() {
 		lr = append(lr, genLR(rng, i%2 == 1))
 	}
 	c.c16BRun(lr, [][]string{{"-support-left-recursion"}}, true, rng)
+	// a handler whose recovery expression throws its own label again: unbounded recursion through
+	// nothing but throw and recovery nodes (decided between real runs only: the model would recurse too)
+	mk := func(rules ...*gast.Rule) *gast.Grammar { return &gast.Grammar{Rules: rules} }
+	r := func(n string, e *gast.Expr) *gast.Rule { return &gast.Rule{Name: n, Expr: e} }
+	rethrow := []*gast.Grammar{
+		mk(r("S", gast.S(gast.Rec(gast.Ref("X"), gast.Thr("L1"), "L1"), gast.Star(gast.Dot()))), r("X", gast.C(gast.L("a"), gast.Thr("L1")))),
+		mk(r("S", gast.S(gast.L("x"), gast.Rec(gast.Rec(gast.Ref("X"), gast.Thr("L2"), "L1"), gast.C(gast.L("!"), gast.Thr("L1")), "L2"), gast.Star(gast.Dot()))), r("X", gast.C(gast.L("a"), gast.Thr("L1")))),
+	}
+	c.c16BRun(rethrow, [][]string{{}, {"-optimize-parser"}}, true, rng)
 }
 
 func c16LRStrata() []*gast.Grammar {
